@@ -30,7 +30,9 @@ var flagLayouts = map[slog.Flags]string{
 const fallbackLayout = "15:04:05.000000Z07:00"
 
 var customLayouts = []string{time.RFC3339, time.RFC3339Nano, time.RFC1123, time.RFC1123Z, time.RFC822Z, time.RFC850, time.ANSIC, time.UnixDate,
-	time.Kitchen, time.StampNano, time.DateOnly, time.TimeOnly, "2006-01-02 15:04:05.000 -0700", "02/01/06 03:04:05PM Z07:00:00"}
+	time.Kitchen, time.StampNano, time.DateOnly, time.TimeOnly, "2006-01-02 15:04:05.000 -0700", "02/01/06 03:04:05PM Z07:00:00",
+	// literal text that is not ASCII
+	"2006\u5e7401\u670802\u65e5 15\u65f604\u520605\u79d2 -0700", "02.01.2006 \u00b7 15:04:05.000000 Z07:00"}
 
 var zoneNames = []string{"America/New_York", "Europe/Berlin", "Asia/Kolkata", "Australia/Lord_Howe", "Pacific/Apia", "Asia/Kathmandu", "America/St_Johns", "Africa/Monrovia"}
 
